@@ -171,13 +171,17 @@ CLAIMED = {
              "document skeleton. The Lean tree-builder and tokenizer models make every Python exception source and every "
              "loop's fuel explicit and reproduce the class and site of every exception the real parser raised (this is how the "
              "non-termination, assertion, AttributeError and RecursionError defects fixed in /repo were found). Proved on the "
-             "model (C02c, C03b; ~700 theorems): the tokenizer never runs out of fuel and from the entry states raises nothing "
+             "model (C02c, C03b, C03c; ~900 theorems): the tokenizer never runs out of fuel and from the entry states raises nothing "
              "but one recorded ValueError site; every helper loop of the tree builder has enough fuel in every state; nested "
              "phase re-dispatch is at most 6 deep for all phases and tokens (sharp); the EOF loop and the token loop terminate; "
              "C03_total_fuel_partial: Parser.parse never runs out of fuel except possibly in the reprocess loop and Dom.toTree. "
-             "reprocess_not_total: from five states the reprocess loop does spin forever (replayed on the real mainLoop); no "
-             "such state was reached by 200 000 targeted parses — reachability is not proved, and absence of the other "
-             "exception kinds in the tree builder is not proved (search only).",
+             "reprocess_not_total: from five states the reprocess loop does spin forever (replayed on the real mainLoop). C03c "
+             "(12 900 lines): Reach_Inv — every state reachable from init by any token sequence (documents and fragments in any "
+             "container) satisfies the invariant Inv (phase registers, stack shape, cell/row/select scope facts, head position), "
+             "hence the guards G1-G5 hold and all five stuck states are UNREACHABLE by parsing (stuckState_unreachable, "
+             "C03c_reachable_guards). Still open: the decreasing measure for the reprocess loop on Inv states "
+             "(reprocessLoop_total_of_measure reduces totality to it), so C03_total_fuel stays partial for that one site; "
+             "absence of the other exception kinds in the tree builder is not proved (search only).",
         note="search on the real code + model with explicit exception sites; termination theorems on the model are partial (reprocess loop).",
         technique="differential correspondence with explicit-exception Lean model + Lean 4 termination theorems on the model + totality search on the real code",
         design="6/C03"),
